@@ -270,18 +270,68 @@ func boundedCounterLoop(f *ast.ForStmt) bool {
 		return false
 	}
 	iv := nospace(as.Lhs[0])
-	cond := nospace(f.Cond)
+	// the counter is stepped by the post statement only
+	stepped := false
+	ast.Inspect(f.Body, func(n ast.Node) bool {
+		switch x := n.(type) {
+		case *ast.AssignStmt:
+			for _, l := range x.Lhs {
+				if nospace(l) == iv {
+					stepped = true
+				}
+			}
+		case *ast.IncDecStmt:
+			if nospace(x.X) == iv {
+				stepped = true
+			}
+		case *ast.UnaryExpr:
+			if x.Op == token.AND && nospace(x.X) == iv {
+				stepped = true
+			}
+		}
+		return true
+	})
+	if stepped {
+		return false
+	}
+	// the conjuncts of the condition: one of them bounds the counter (further conjuncts only end the loop earlier)
+	var conj []string
+	var split func(e ast.Expr)
+	split = func(e ast.Expr) {
+		e = stripParens(e)
+		if be, ok := e.(*ast.BinaryExpr); ok && be.Op == token.LAND {
+			split(be.X)
+			split(be.Y)
+			return
+		}
+		conj = append(conj, nospace(e))
+	}
+	split(f.Cond)
+	has := func(test func(c string) bool) bool {
+		for _, c := range conj {
+			if test(c) {
+				return true
+			}
+		}
+		return false
+	}
 	switch p := f.Post.(type) {
 	case *ast.IncDecStmt:
 		if nospace(p.X) != iv {
 			return false
 		}
 		if p.Tok == token.DEC {
-			return cond == iv+">=0" || cond == iv+">0"
+			return has(func(c string) bool { return c == iv+">=0" || c == iv+">0" })
 		}
-		return strings.HasPrefix(cond, iv+"<len(") || strings.HasPrefix(cond, iv+"<=")
+		return has(func(c string) bool { return strings.HasPrefix(c, iv+"<len(") || strings.HasPrefix(c, iv+"<=") })
 	case *ast.AssignStmt:
-		return nospace(p.Lhs[0]) == iv && p.Tok == token.ADD_ASSIGN && strings.HasPrefix(cond, iv+"<len(")
+		if nospace(p.Lhs[0]) != iv || p.Tok != token.ADD_ASSIGN || len(p.Rhs) != 1 {
+			return false
+		}
+		if bl, ok := p.Rhs[0].(*ast.BasicLit); !ok || bl.Kind != token.INT || bl.Value == "0" {
+			return false
+		}
+		return has(func(c string) bool { return strings.HasPrefix(c, iv+"<len(") })
 	}
 	return false
 }
